@@ -332,7 +332,7 @@ impl ty::TyModule {
         } = parsed;
 
         // Try to get the cached root module if it's up to date
-        if let Some((ty_module, _namespace_module)) =
+        if let Some((ty_module, namespace_module)) =
             ty::TyModule::get_cached_ty_module_if_up_to_date(
                 handler,
                 parsed.span.source_id(),
@@ -340,6 +340,10 @@ impl ty::TyModule {
                 build_config,
             )
         {
+            // Restore the namespace the module was type-checked into, as is done for cached
+            // submodules below: the caller goes on using it, and the coherence checks that follow
+            // walk the submodules of the typed module and expect to find each of them in it.
+            *ctx.namespace_mut().current_module_mut() = (*namespace_module).clone();
             return Ok(ty_module);
         }
         let diagnostics_mark = handler.mark();
